@@ -217,6 +217,6 @@ struct BlockMark {            // RAII: "this thread is inside a blocking pop/pus
 inline std::string cls_key(int cls, const std::string& what) { return std::string("c09.") + (char)cls + "." + what; }
 
 // hooks of interest: queue tickets/pages/waits + monitor protocol steps
-inline const std::vector<int>& hook_ids() { static std::vector<int> v = { 130, 131, 132, 133, 134, 135, 65, 66, 67, 50, 51, 52, 53, 54, 55 }; return v; }
+inline const std::vector<int>& hook_ids() { static std::vector<int> v = { 130, 131, 132, 133, 134, 135, 136, 65, 66, 67, 50, 51, 52, 53, 54, 55 }; return v; }
 
 } // namespace c09
